@@ -168,6 +168,34 @@ def semantically_equal(m, pf, cf):
     return False
 
 
+def rule_symbol_definitions(chk, pyk, file=None, floor=40):
+    """the rules below speak of q = r/h and h1 = 1/h as symbols: in every method of every kernel the locals of those names are assigned exactly that (and nothing else)"""
+    from verif_static.norm import same as same_
+    n = 0
+    for name, pc in sorted(pyk.items()):
+        for mname, fn in sorted(M.methods(pc).items()):
+            params = [a.arg for a in fn.args.args]
+            if 'rij' not in params or 'h' not in params:
+                continue
+            for a in ast.walk(fn):
+                if not (isinstance(a, (ast.Assign, ast.AugAssign))):
+                    continue
+                tg = a.targets[0] if isinstance(a, ast.Assign) else a.target
+                if not (isinstance(tg, ast.Name) and tg.id in ('q', 'h1')):
+                    continue
+                n += 1
+                if tg.id == 'h1':
+                    ok = isinstance(a, ast.Assign) and same_(a.value, '1.0/h', '1/h')
+                    want = '1/h'
+                else:
+                    ok = isinstance(a, ast.Assign) and same_(a.value, 'rij/h', 'rij*h1', 'rij*(1.0/h)')
+                    want = 'rij/h'
+                chk.decide(ok, 'symbol-definitions', '%s%s.%s:%s@%d' % ('compiled:' if file else '', name, mname, tg.id, a.lineno), node=a, file=file or KER, func='%s.%s' % (name, mname),
+                           detail_bad='`%s`: the local %s of a kernel method is %s, every formula below it is written in terms of it' % (U(a)[:60], tg.id, want),
+                           detail_ok='%s = %s' % (tg.id, want))
+    chk.floor('definitions of q and h1 in %skernel methods' % ('compiled ' if file else ''), n, floor)
+
+
 def rule_twin(chk):
     py = M.py(KER)
     cy = M.cy(CK)
@@ -1602,6 +1630,8 @@ def main(chk):
                        'at the support edge for polynomial kernels, gradient_h = -fac*h1*(dw*q + w*dim) with the same pieces.')
     pyk = rule_twin(chk)
     rule_dimensions(chk, pyk)
+    rule_symbol_definitions(chk, pyk)
+    rule_symbol_definitions(chk, dict((c.name, c) for c in M.classes(M.cy(CK)) if 'kernel' in M.methods(c) and 'gradient' in M.methods(c) and not c.name.endswith('Wrapper')), file=CK)
     rule_cutoff(chk, pyk)
     rule_r0(chk, pyk)
     rule_gradient_form(chk, pyk)
